@@ -11,7 +11,7 @@
 (*   <<"req", r>>      (require A :readers [r])   only in module B           *)
 (* Reading and evaluating alternate strictly: item i+1 is read only after    *)
 (* item i has been evaluated.  Each module has its own reader table.         *)
-EXTENDS Naturals, Sequences, FiniteSets, TLC, Json
+EXTENDS Naturals, Sequences, FiniteSets, TLC, Json, SequencesExt
 
 CONSTANTS MaxA, MaxB
 Names == {"r", "q"}
@@ -68,6 +68,20 @@ ModulesIsolated ==
 StrictAlternation ==
   ResA.err # 0 => \A x \in 1..Len(ResA.out) : ResA.out[x][1] < ResA.err
 
+\* A further stream read by a *fresh* reader and evaluated in module B, after B has been loaded (as hy.read /
+\* hy.eval with a new reader do): the table belongs to the reader, not to the module, so the new reader starts
+\* empty whatever B's stream defined or required, and a require brings in the named macros only.
+ContStreams == {<<<<"use", n>>>> : n \in Names}
+                 \cup {<<<<"req", m>>, <<"use", n>>>> : m \in Names, n \in Names}
+                 \cup {<<<<"def", n>>, <<"use", n>>>> : n \in Names}
+ResC(sc) == Run(sc, 1, Empty, <<>>, ResA.tab, 300)
+\* a fresh reader sees a name only if its own stream defined it or required exactly it
+FreshReaderStartsEmpty ==
+  \A sc \in ContStreams : \A i \in 1..Len(sc) :
+     (sc[i][1] = "use" /\ (ResC(sc).err = 0 \/ i <= ResC(sc).err)) =>
+        ((ResC(sc).err = i) = ~(\E j \in 1..(i - 1) : sc[j][1] \in {"def", "req"} /\ sc[j][2] = sc[i][2]))
+ContSeq == SetToSeq(ContStreams)
 Export == (Len(sa) + Len(sb) > 0) =>
-  PrintT(<<"CASE", ToJson([sa |-> sa, sb |-> sb, ra |-> ResA, rb |-> ResB])>>)
+  PrintT(<<"CASE", ToJson([sa |-> sa, sb |-> sb, ra |-> ResA, rb |-> ResB,
+                           cont |-> [i \in 1..Cardinality(ContStreams) |-> [sc |-> ContSeq[i], rc |-> ResC(ContSeq[i])]]])>>)
 =============================================================================
